@@ -6,6 +6,7 @@ package proggen
 
 import (
 	"fmt"
+	"strings"
 
 	"pgregory.net/rapid"
 
@@ -39,6 +40,7 @@ type Opts struct {
 	NoCondNoBody   bool // no cond clause without body
 	MarkOdds       int  // out of 10: wrap evaluated positions in vt:mark
 	NoLambdaCall   bool // no lambda expression in the function position: ((lambda (p) ...) arg)
+	CaseVary       bool // Program: some occurrences of variable names are written in another case (a / A name one variable in slip)
 }
 
 // Gen is the generator state for one program.
@@ -747,7 +749,38 @@ func (g *Gen) Program() []r.Val {
 		forms = append(forms, g.Defun())
 	}
 	forms = append(forms, g.Expr([]string{TInt, TList, TAny, TInt}[g.pick("maintype", 4)], nil, 0))
+	if g.O.CaseVary {
+		for i, f := range forms {
+			forms[i] = g.caseVary(f)
+		}
+	}
 	return forms
+}
+
+// caseVary writes about one in eight occurrences of a variable name from the pool in upper case. slip's symbols do not
+// distinguish case, so the program is the same program. Quoted data and keywords stay as they are (pool names are never operators).
+func (g *Gen) caseVary(v r.Val) r.Val {
+	l, ok := v.([]r.Val)
+	if !ok || len(l) == 0 {
+		return v
+	}
+	if hd, isSym := l[0].(r.Sym); isSym && (hd == "quote" || hd == "function") {
+		return v
+	}
+	out := make([]r.Val, len(l))
+	for i, e := range l {
+		if sy, isSym := e.(r.Sym); isSym {
+			for _, name := range pool {
+				if string(sy) == name && g.pick("upcase", 8) == 0 {
+					e = r.Sym(strings.ToUpper(name))
+				}
+			}
+			out[i] = e
+			continue
+		}
+		out[i] = g.caseVary(e)
+	}
+	return out
 }
 
 // DefunIndexed generates the definition of function sigs[i]. Its body may call the functions with a larger
